@@ -582,6 +582,45 @@ class Builder:
                 self._emit('stmt', asg, frame)
                 self._body(s.body, frame)
         elif isinstance(s, ast.For) and \
+                self._star_iter(s, frame) is not None:
+            # `for cond, reply in checks:` over the *args of an inlined
+            # helper whose call site spells them out: the body runs once per
+            # argument; a loop variable bound to a pure test of the caller
+            # is that test where the body branches on it
+            for pairs in self._star_iter(s, frame):
+                if not self.dangling:
+                    break
+                saved_lt = dict(getattr(self, '_local_tests', {}))
+                lt = dict(saved_lt)
+                subst = {}
+                for nm, ex, ef in pairs:
+                    lt[(id(frame), nm)] = (ex, ef)
+                    if self._same_everywhere(ex, ef, frame):
+                        subst[nm] = ex
+                self._local_tests = lt
+                body = s.body
+                if subst:
+                    # a loop variable bound to a constant / module-level
+                    # name reads as that name in this copy of the body
+                    # (`reply.send(io)` is `bad_sequence.send(io)`)
+                    import copy as _copy
+
+                    class _Sub(ast.NodeTransformer):
+                        def visit_Name(self, node):
+                            if isinstance(node.ctx, ast.Load) and \
+                                    node.id in subst:
+                                new = _copy.deepcopy(subst[node.id])
+                                return ast.copy_location(new, node)
+                            return node
+                    body = [_Sub().visit(_copy.deepcopy(st))
+                            for st in s.body]
+                    for st in body:
+                        ast.fix_missing_locations(st)
+                try:
+                    self._body(body, frame)
+                finally:
+                    self._local_tests = saved_lt
+        elif isinstance(s, ast.For) and \
                 self._const_trips(s, frame) is not None:
             # `for _ in range(<known small constant>)`: the body runs exactly
             # that many times
@@ -994,6 +1033,18 @@ class Builder:
             if v:
                 return [(n, 'T')], []
             return [], [(n, 'F')]
+        if isinstance(e, ast.Name) and \
+                (id(frame), e.id) in getattr(self, '_local_tests', {}):
+            ex, ef = self._local_tests[(id(frame), e.id)]
+            pure = (ast.Name, ast.Attribute, ast.Constant, ast.Compare,
+                    ast.BoolOp, ast.UnaryOp, ast.expr_context, ast.cmpop,
+                    ast.boolop, ast.unaryop)
+            if isinstance(ex, ast.Name):
+                adj = self._adjacent_flag_def(ex, ef)
+                if adj is not None:
+                    ex = adj
+            if all(isinstance(x, pure) for x in ast.walk(ex)):
+                return self._cond(ex, ef)
         if isinstance(e, ast.Name) and self.thread_returns:
             d = self._bool_def(e, frame)
             if d is not None:
@@ -1201,6 +1252,140 @@ class Builder:
                 if isinstance(x, (ast.Break, ast.Continue)):
                     return None
         return list(it.elts)
+
+    def _same_everywhere(self, ex, ef, frame):
+        """the expression means the same in both frames: a constant, or a
+        module-level name of the module both functions live in that
+        neither function binds"""
+        if isinstance(ex, ast.Constant):
+            return True
+        if not isinstance(ex, ast.Name):
+            return False
+        from .model import walk_own
+        f1, f2 = ef.ctx.func, frame.ctx.func
+        if f1.module is not f2.module:
+            return False
+        for fn in (f1, f2):
+            if ex.id in fn.params or any(
+                    isinstance(x, ast.Name) and x.id == ex.id and
+                    isinstance(x.ctx, (ast.Store, ast.Del))
+                    for x in walk_own(fn.node)):
+                return False
+        m = f1.module
+        return ex.id in m.globals or ex.id in getattr(m, 'imports', {}) or \
+            ex.id in getattr(m, 'functions', {})
+
+    def _adjacent_flag_def(self, e: ast.Name, frame):
+        """`flag = <pure test over names / attributes / constants>` when
+        that assignment is the only one of the flag and is the statement
+        right before the one in which this use of the flag occurs (nothing
+        runs in between), else None"""
+        from .model import walk_own
+        fn = frame.ctx.func
+        if e.id in fn.params:
+            return None
+        stores = [x for x in walk_own(fn.node) if isinstance(x, ast.Name)
+                  and x.id == e.id and isinstance(x.ctx, (ast.Store,
+                                                            ast.Del))]
+        if len(stores) != 1:
+            return None
+        pure = (ast.Name, ast.Attribute, ast.Constant, ast.Compare,
+                ast.BoolOp, ast.UnaryOp, ast.expr_context, ast.cmpop,
+                ast.boolop, ast.unaryop)
+
+        def find(stmts):
+            for i, st in enumerate(stmts):
+                if i and any(x is e for x in ast.walk(
+                        st.test if isinstance(st, (ast.If, ast.While))
+                        else st)):
+                    prev = stmts[i - 1]
+                    if isinstance(prev, ast.Assign) and \
+                            len(prev.targets) == 1 and \
+                            prev.targets[0] is stores[0] and all(
+                                isinstance(x, pure)
+                                for x in ast.walk(prev.value)):
+                        return prev.value
+                    if not isinstance(st, (ast.If, ast.While, ast.For,
+                                           ast.Try, ast.With)):
+                        return None
+                for fld in ('body', 'orelse', 'finalbody'):
+                    sub = getattr(st, fld, None)
+                    if isinstance(sub, list) and sub and \
+                            isinstance(sub[0], ast.stmt):
+                        r = find(sub)
+                        if r is not None:
+                            return r
+                for h in getattr(st, 'handlers', []) or []:
+                    r = find(h.body)
+                    if r is not None:
+                        return r
+            return None
+        return find(fn.node.body)
+
+    def _star_iter(self, s: ast.For, frame):
+        """per iteration [(loop variable, expression, its frame)] for
+        `for <names> in <the *args parameter>` when the inlining site gives
+        every argument as a display of the right arity (or the target is one
+        name), the body neither breaks nor continues nor re-binds the loop
+        variables, and every call in the body sits in a branch that ends in
+        return / raise (so nothing runs between two tests of the
+        conditions handed in)"""
+        fn = frame.ctx.func
+        va = fn.node.args.vararg
+        if va is None or s.orelse or not isinstance(s.iter, ast.Name) or \
+                s.iter.id != va.arg or frame.star_args is None or \
+                not (1 <= len(frame.star_args) <= 6):
+            return None
+        from .model import walk_own
+        if any(isinstance(x, ast.Name) and x.id == va.arg and
+               isinstance(x.ctx, (ast.Store, ast.Del))
+               for x in walk_own(fn.node)):
+            return None
+        tg = s.target
+        names = [tg] if isinstance(tg, ast.Name) else (
+            list(tg.elts) if isinstance(tg, (ast.Tuple, ast.List)) else None)
+        if names is None or not all(isinstance(x, ast.Name) for x in names):
+            return None
+        ids = {x.id for x in names}
+        for st in s.body:
+            for x in ast.walk(st):
+                if isinstance(x, (ast.Break, ast.Continue)):
+                    return None
+                if isinstance(x, ast.Name) and x.id in ids and \
+                        isinstance(x.ctx, (ast.Store, ast.Del)):
+                    return None
+
+        def ends(block):
+            return bool(block) and isinstance(block[-1], (ast.Return,
+                                                          ast.Raise))
+
+        def calm(block):
+            for st in block:
+                if isinstance(st, ast.If):
+                    if any(isinstance(x, ast.Call)
+                           for x in ast.walk(st.test)):
+                        return False
+                    if not ((ends(st.body) or calm(st.body)) and
+                            (ends(st.orelse) or calm(st.orelse))):
+                        return False
+                elif any(isinstance(x, ast.Call) for x in ast.walk(st)):
+                    return False
+            return True
+        if not calm(s.body):
+            return None
+        out = []
+        for a, af in frame.star_args:
+            if isinstance(a, ast.Starred):
+                return None
+            if isinstance(tg, ast.Name):
+                out.append([(tg.id, a, af)])
+            elif isinstance(a, (ast.Tuple, ast.List)) and \
+                    len(a.elts) == len(names):
+                out.append([(n.id, el, af)
+                            for n, el in zip(names, a.elts)])
+            else:
+                return None
+        return out
 
     def _const_trips(self, s: ast.For, frame):
         """number of iterations of `for x in range(N)` when N is a literal
